@@ -20,6 +20,10 @@ def run(ctx):
     model = ctx.model
     from . import unitspec as _us
     _us.api_verified(ctx, 'C05.R1')
+    # a solvent container is drawn from with Container.transfer by moles: the aliquot is what the solve assumed only
+    # if the transfer measures the same total (all non-enzymes)
+    from .c02 import transfer_measures
+    transfer_measures(ctx, 'C05.R2', units=False)
     fi = model.func('Container.create_solution')
     sc = scan_solver(ctx, 'Container.create_solution')
     n1 = uscan.report_sinks(ctx, lambda cat: 'C05.R1' if cat in ROW_CATS else 'C05.R2' if cat in SOLVENT_CATS else None, sc)
